@@ -25,9 +25,10 @@ Alphabet (every domain simplest first; the full product is run):
   x epsrel {1e-6 | thorough: 1e-5, 1e-8} x initial field {generic | thorough: + 0} x subdiv_limit {default, None}
 
 Measured on a tree in which compute_dynamics_with_field hands the *old* grid time to the Heun stages (i.e. where
-the property holds; scratch copy, see final report): cross-method deviations <= 0.007 (quick) / 0.03 (thorough) of
+the property holds; scratch copy, see final report): cross-method deviations <= 0.007 (quick) / 0.02 (thorough) of
 the bound 20*epsrel*n; exact families <= 1.4e-14 (bound 1e-10); Heun recursion on own states: 0.0 (bound 1e-11).
-Every mutant rule of RULES moves the field by >= 4e-5 where it is distinguishable at all (bound 1e-11 / 1e-10).
+Every mutant field rule of RULES moves the result by >= 2e-5 where it is distinguishable at all, a late field
+derivative in the propagators by >= 7e-6 (bounds 1e-11 / 1e-10).
 """
 import functools
 import itertools
@@ -570,12 +571,13 @@ def r3(x):
     return x
 
 
-def up1(x):
+def up1(x, floor=0.0):
     """noise-level measurements (float jitter of separately truncated networks differs from run to run): rounded *up*
-    to one significant digit, so that the reported number is an upper bound and reproducible"""
+    to one significant digit (and to at least `floor`), so that the reported number is an upper bound and reproducible"""
     if isinstance(x, dict):
-        return {k: up1(v) for k, v in x.items()}
+        return {k: up1(v, floor) for k, v in x.items()}
     if isinstance(x, float) and x > 0:
+        x = max(x, floor)
         e = int(np.floor(np.log10(x)))
         return float(f"{np.ceil(x / 10.0 ** e * (1 - 1e-9)) * 10.0 ** e:.1g}")
     return x
@@ -718,14 +720,16 @@ def run(tier, seed):
                 "field feedback on the states >1e-3 and (ancilla route) environment influence >0.05; x/dec cases with "
                 "coupled baths additionally need a measured bath influence (difference to the alpha=0 partner run) "
                 f">{BATH_MIN}",
-        "samples": [xs[(seed * 37) % len(xs)], xs[len(xs) // 2 + 7], es[len(es) // 3]],
+        "samples": [xs[(seed * 37) % len(xs)],
+                    next(c for c in xs if c["n"] == 4 and c["bath"] == "ohmic" and c["eom"] == "full" and c["conf"] == "3"),
+                    next(c for c in es if c["n"] == 4 and c["eom"] == "tc" and c["conf"] == "2" and c["start"] == 1.0)],
         "max_dev": up1(maxdev.get(wname, 0.0)) if wname else 0.0,
         "tolerance": f"truncation-limited: {C_TRUNC}*epsrel*n; exact scheme: {TOL_EXACT}; field vs Heun on own "
                      f"states: {TOL_HEUN}*n*max(1,|a|); record_all=False vs True: 1e-12",
         "max_dev_over_tol": up1(worst),
         "worst_check": wname,
-        "max_dev_by_check": up1(maxdev),
-        "max_dev_over_tol_by_check": up1(maxrel),
+        "max_dev_by_check": up1(maxdev, 1e-13),           # upper bounds; pure rounding noise reported as 1e-13
+        "max_dev_over_tol_by_check": up1(maxrel, 1e-3),
         "comparisons_over_tolerance_by_check": failing,
         "min_effect_sizes": r3(min_eff),
         "cases_with_bath_influence_gt_0.02": n_bath_active,
